@@ -125,6 +125,15 @@ CLAIMS = {
           'Tie: centroid_com vs the model exactly on dyadic cut-outs with masks/NaN; centroid_quadratic on exactly quadratic peaks vs the model fed the true coefficients; py2intround on half-integers; centroid_sources vs per-cut-out calls (footprint/mask/error/xpeak).',
   'note': 'Trusted: Lean kernel + standard axioms; AST extractor of the loop skeleton; numpy lstsq; Gaussian fits (astropy fitters) not modelled. centroid_quadratic is tested for symmetry only when the symmetry centre is a pixel centre (its odd fit box cannot be centred otherwise).',
  },
+ 'C18': {
+  'design_ref': 'DESIGN.md §5 C18',
+  'technique': 'Lean 4 theorems on the accumulation model of make_model_image (window arithmetic of overlap_slices, skip rule, units flag; loop skeleton regenerated from the source) + correspondence with the real renderer',
+  'text': 'Proved in Lean (exact arithmetic): every pixel of the rendered image is the sum over table rows of (model value + local background) on that row\'s model_shape window clipped to the image, and 0 from rows whose window misses the pixel (render_is_sum); the window on each axis is exactly the part of [ceil(pos - s/2), ceil(pos - s/2) + s) inside the image and is absent iff that interval misses the image '
+          '(window1_spec, window1_none_iff); the image is invariant under any reordering of the rows, additive over table concatenation, and rows that do not overlap contribute nothing (render_perm_invariant, render_concat_additive, render_skips_offimage); for the loop skeleton extracted from the source the output carries units as soon as any overlapping row is unit-ful, independent of row order '
+          '(units_independent_of_row_order, loop_skeleton); residual + model = data (residual_is_data_minus_model). [param] the model evaluation per row is an oracle supplied by the harness (full-frame evaluation of the real astropy model). '
+          'Tie: make_model_image on tables with rows inside / on the edge / far off the image (incl. row 0 off-image, windows ending exactly at the image edge), per-row model_shape (odd/even), local_bkg, name maps, unit-ful fluxes, 5 model families, compared pixel-wise with the Lean accumulation of the oracle values; reorder/split relations and input immutability on the implementation; PSFPhotometry model/residual images.',
+  'note': 'Trusted: Lean kernel + standard axioms; AST extractor of the loop skeleton; astropy model evaluation; float accumulation order (1e-12).',
+ },
 }
 
 _todo = 'check not built yet in this round (see DESIGN.md §10 build order); not claimed until its machinery is committed'
